@@ -33,6 +33,7 @@ hwloc_internal_cpukinds_destroy(struct hwloc_topology *topology)
   free(topology->cpukinds);
   topology->cpukinds = NULL;
   topology->nr_cpukinds = 0;
+  topology->nr_cpukinds_allocated = 0; /* otherwise the next register() skips the allocation and writes through NULL */
 }
 
 int
